@@ -7,3 +7,9 @@ impl vstd::std_specs::cmp::PartialEqSpecImpl for Infix {
     open spec fn obeys_eq_spec() -> bool { true }
     open spec fn eq_spec(&self, other: &Infix) -> bool { *self == *other }
 }
+
+// Provenance marker (C22): "this goal was returned by make_query", the query constructor whose reset of
+// the global query state is proved by Kani.  Uninterpreted; its only source is the clause assumed at
+// make_query's call sites, so `built_by_make_query(q)` can be proved of a value only by obtaining it
+// from make_query.
+pub uninterp spec fn built_by_make_query(g: Goal) -> bool;
